@@ -12,6 +12,8 @@ import json, os, re, shutil, subprocess, sys, time
 
 ROOT = os.path.dirname(os.path.dirname(os.path.abspath(__file__)))
 WT, TGT = "/tmp/sv_wt", "/tmp/sv_target"
+if os.environ.get("SV_SUFFIX"):
+    WT, TGT = WT + "_" + os.environ["SV_SUFFIX"], TGT + "_" + os.environ["SV_SUFFIX"]
 ENV = dict(os.environ, CARGO_NET_OFFLINE="true", CARGO_TARGET_DIR=TGT)
 RELATED = {
     "C01": ["C01", "C13", "C05"], "C02": ["C02", "C13", "C01"], "C04": ["C04", "C05"], "C05": ["C05", "C04", "C13"], "C06": ["C06", "C11", "C13"],
@@ -29,6 +31,32 @@ def sh(cmd, cwd=None, env=None, timeout=3600):
 def suite_ok(out):
     res = re.findall(r"test result: (\w+)\. (\d+) passed; (\d+) failed", out)
     return bool(res) and all(r[0] == "ok" and r[2] == "0" for r in res) and "error: could not compile" not in out, sum(int(r[1]) for r in res)
+
+
+def scratch_verify_c14(patch, n, src):
+    """C14 seeds: the demonstration is an example program that must be rejected (unchanged) / accepted (patched)."""
+    log = {}
+    subprocess.run(["git", "-C", "/repo", "worktree", "remove", "--force", WT], stdout=subprocess.DEVNULL, stderr=subprocess.DEVNULL)
+    rc, out = sh(["git", "-C", "/repo", "worktree", "add", "--detach", WT, "HEAD"])
+    assert rc == 0, out
+    try:
+        os.makedirs(os.path.join(WT, "examples"), exist_ok=True)
+        shutil.copy(os.path.join(src, "demo%s.rs" % n), os.path.join(WT, "examples", "seed_demo.rs"))
+        rc, out = sh(["cargo", "build", "--offline", "--all-features", "--example", "seed_demo"], cwd=WT)
+        log["demo_unpatched"] = {"rc": rc, "rejected_by_compiler": rc != 0, "tail": out[-500:]}
+        rc2, out2 = sh(["git", "apply", patch], cwd=WT)
+        log["apply"] = {"rc": rc2}
+        os.remove(os.path.join(WT, "examples", "seed_demo.rs"))
+        rc3, out3 = sh(["cargo", "test", "--workspace", "--no-fail-fast", "--offline"], cwd=WT)
+        ok, npass = suite_ok(out3)
+        log["suite_patched"] = {"ok": ok, "passed": npass, "tail": out3[-300:]}
+        shutil.copy(os.path.join(src, "demo%s.rs" % n), os.path.join(WT, "examples", "seed_demo.rs"))
+        rc4, out4 = sh(["cargo", "build", "--offline", "--all-features", "--example", "seed_demo"], cwd=WT)
+        log["demo_patched"] = {"rc": rc4, "accepted_by_compiler": rc4 == 0, "tail": out4[-300:]}
+        log["confirmed"] = bool(rc != 0 and rc2 == 0 and ok and rc4 == 0)
+    finally:
+        subprocess.run(["git", "-C", "/repo", "worktree", "remove", "--force", WT], stdout=subprocess.DEVNULL, stderr=subprocess.DEVNULL)
+    return log
 
 
 def scratch_verify(patch, demo):
@@ -97,13 +125,19 @@ def main():
     shutil.copy(os.path.join(src, "demo%s.rs" % n), os.path.join(d, "demo.rs"))
     notes = open(os.path.join(src, "notes.md")).read() if os.path.exists(os.path.join(src, "notes.md")) else ""
     open(os.path.join(d, "notes.md"), "w").write(notes)
-    v = scratch_verify(os.path.join(d, "patch.diff"), os.path.join(d, "demo.rs"))
+    if "--checks-only" in sys.argv:
+        meta = json.load(open(os.path.join(d, "meta.json")))
+        v = meta["confirmed_in_scratch_worktree"]
+    elif prop == "C14":
+        v = scratch_verify_c14(os.path.join(d, "patch.diff"), n, src)
+    else:
+        v = scratch_verify(os.path.join(d, "patch.diff"), os.path.join(d, "demo.rs"))
     meta = {"id": sid, "breaks_property": prop, "source": "independent sub-agent given only the property text and a scratch worktree",
             "needs_to_manifest": "see notes.md (section for change %s)" % n,
             "confirmed_in_scratch_worktree": v, "ran": ["cargo test --offline --all-features --test seed_demo (unpatched: pass; patched: fail)",
                                                          "cargo test --workspace --no-fail-fast --offline (patched: all pass)", "git -C /repo apply patch.diff; ./check <P> quick ...; git -C /repo checkout -- ."],
             "checks": {}, "caught_by": []}
-    if v["confirmed"]:
+    if v["confirmed"] and "--scratch-only" not in sys.argv:
         meta["checks"] = run_checks(os.path.join(d, "patch.diff"), checks)
         meta["caught_by"] = sorted(c for c, r in meta["checks"].items() if r["exit"] == 1)
     json.dump(meta, open(os.path.join(d, "meta.json"), "w"), indent=1)
